@@ -262,8 +262,9 @@ SlotsRenderCell(t, rowOwner, kind, a, c, req) ==
 SlotsRenderPass(st, t) ==
   LET T == st.tbl[t] IN
   << Slot("table", t, 0, "pre", {"itself"}, "table", t, 0, TRUE, TRUE) >>
+  \* (the defaults column 0 is a column: a registration on it is accepted, so its own render-time callbacks run)
   \o [n \in 1..(T.ncols + 1) |->
-        Slot("column", t, n - 1, "pre", {"itself"}, "column", t, n - 1, n > 1, TRUE)]
+        Slot("column", t, n - 1, "pre", {"itself"}, "column", t, n - 1, TRUE, TRUE)]
   \o (IF ~T.hdrp THEN <<>> ELSE
         Flatten([c \in 1..Len(T.hdr) |-> SlotsRenderCell(t, 0, "hcell", t, c, FALSE)]))
   \o Flatten([i \in 1..Len(T.rows) |->
@@ -272,7 +273,7 @@ SlotsRenderPass(st, t) ==
           \o Flatten([c \in 1..Len(R.cells) |-> SlotsRenderCell(t, r, "cell", r, c, TRUE)])
           \o << Slot("row", r, 0, "post", {"itself", "row"}, "row", r, 0, ~R.sep, TRUE) >>])
   \o [n \in 1..(T.ncols + 1) |->
-        Slot("column", t, n - 1, "post", {"itself"}, "column", t, n - 1, n > 1, TRUE)]
+        Slot("column", t, n - 1, "post", {"itself"}, "column", t, n - 1, TRUE, TRUE)]
   \o << Slot("table", t, 0, "post", {"itself"}, "table", t, 0, TRUE, TRUE) >>
 
 \* the events the implementation performs (used when no log is available)
